@@ -5,7 +5,7 @@ from trees import *
 RULE = ("seeded random validated models; assumption dictionaries over any subset of ids (leaves and sub-proposition ids, "
         "constants and ranges, all value forms); assume() output compared structurally with the model; then up to 40 (quick) "
         "further interpretations of the remaining leaves (constants and sub-ranges inside declared bounds): "
-        "assume(A).evaluate(I) vs evaluate(A u I) on the real code, and every bound of the assumed model tested against "
+        "assume(A).evaluate(I) vs evaluate(A u I) on the real code (fresh dictionaries, and one running dictionary on one object), and every bound of the assumed model tested against "
         "completions; non-trivial = has a compound child or an integer leaf")
 ASSUMPTIONS = ["validated, reference-free models", "assume/evaluate called on deep copies (finding F-C09a)",
                "further interpretation stays inside declared bounds (forced by the proof, DESIGN §4 C07)"]
@@ -38,6 +38,21 @@ def do_case(ctx, inp):
             elif r < 0.8:
                 x = ctx.rng.randint(lo, hi); I[n] = (x, ctx.rng.randint(x, hi))
         lhs = copy.deepcopy(assumed).evaluate(render_interp(ctx.rng, I))
+        if j % 4 == 0:
+            # the caller's style matters to anything memoised on the dictionary object: one model object, one running
+            # dictionary that is first assumed and then extended and evaluated
+            m = copy.deepcopy(o)
+            d = dict(render_interp(ctx.rng, A))
+            R = m.assume(d)
+            d.update(render_interp(ctx.rng, I))
+            run_u = m.evaluate(d)
+            run_l = R.evaluate(render_interp(ctx.rng, I))
+            ctx.tags["running-dictionary-style"] += 1
+            if run_l.as_tuple() != run_u.as_tuple() or run_l.as_tuple() != lhs.as_tuple():
+                ctx.fail("assume-then-evaluate-differs-from-evaluate-union",
+                         {"A": interp_json(A), "I": interp_json(I), "style": "d=dict(A); R=m.assume(d); d.update(I); m.evaluate(d)",
+                          "assume_then_evaluate": [int(run_l.lower), int(run_l.upper)], "evaluate_union": [int(run_u.lower), int(run_u.upper)]})
+                return
         U = dict(A); U.update(I)
         rhs = copy.deepcopy(o).evaluate(render_interp(ctx.rng, U))
         if lhs.as_tuple() != rhs.as_tuple():
